@@ -272,3 +272,168 @@ contracts.append(Contract(
     post_in_env=True,
     loops={0: LoopContract(index="km", label="marking", invariant=MARK_INV,
                            modifies={"marked": lambda e, b: slist_elems(e, "marked"), "cumsum": "Real", "i": "Int"})}))
+
+
+# ------------------------------------------------------------------------------------------
+# C06: anisotropic marking -- the 2N contributions (value, element, axis tag), sorted descending, shortest prefix
+
+ETA2 = z3.Function("ETA2", I, I, R)       # eta_sqr[i, axis]
+
+
+class EtaMat:
+    def __init__(self, N):
+        self.N = N
+
+
+def _eta_slice_hook(eng, base, sl, env):
+    if isinstance(base, EtaMat):
+        col = eng.ev(sl.elts[1], env)
+        return NArr(base.N, lambda i, col=col: ETA2(to_z3(i), to_z3(col)), "eta[:, %s]" % col)
+    return NotImplemented
+
+
+def _eta_attr_hook(eng, base, attr):
+    if isinstance(base, EtaMat) and attr == "shape":
+        return (base.N, 2)
+    return NotImplemented
+
+
+def sc_dorfler_aniso(eng):
+    def build(eng):
+        m = mesh_obj(eng)
+        N = NL(m.fields["version"])
+        theta = z3.Real("theta")
+        i, a = z3.Ints("i!ax a!ax")
+        eng.assume(z3.And(N >= 1, theta > 0, theta < 1))
+        eng.assume(z3.ForAll([i, a], ETA2(i, a) >= 0))
+        eng.ghost["N"], eng.ghost["theta"] = N, theta
+        eng.ghost["sum_term"] = None
+        return {"self": m, "eta_sqr": EtaMat(N), "theta": theta}
+    return [dict(label="", args=build)]
+
+
+def aniso_sum_ext(eng, arr, **k):
+    """X-SUM: np.sum(eta_sqr) equals the sum of the 2N contributions along the sorted order (== PSUM2(2N))"""
+    return PSUM2(2 * to_z3(eng.ghost["N"]))
+
+
+PSUM2 = z3.Function("PSUM2", I, R)
+
+
+def s_aniso_axioms(eng, errs):
+    """prefix sums along the sorted contribution list (definition + non-negativity lemma), stated once the list is sorted"""
+    k = z3.Int("k!ps2")
+    n2 = to_z3(errs.length)
+    val = lambda j: to_real(errs.elem(j)[0])
+    return z3.And(PSUM2(0) == 0,
+                  z3.ForAll([k], z3.Implies(z3.And(0 <= k, k < n2), PSUM2(k + 1) == PSUM2(k) + val(k))),
+                  z3.ForAll([k], z3.Implies(z3.And(0 <= k, k <= n2), PSUM2(k) >= 0)))
+
+
+def s_aniso_prefix(eng, marked, errs, cumsum, theta, total, k=None):
+    """marked[0] / marked[1] together hold exactly the first K contributions, each in the list of its axis tag"""
+    m0, m1 = marked.items
+    l0 = to_z3(m0.length) if isinstance(m0, SList) else z3.IntVal(len(m0.items))
+    l1 = to_z3(m1.length) if isinstance(m1, SList) else z3.IntVal(len(m1.items))
+    K = l0 + l1
+    th2tot = to_real(total) * (to_real(theta) * to_real(theta))
+    j = z3.Int("j!an")
+    parts = [K >= 1, K <= to_z3(errs.length), to_real(cumsum) == PSUM2(K), PSUM2(K) >= th2tot,
+             z3.ForAll([j], z3.Implies(z3.And(0 < j, j < K), PSUM2(j) < th2tot))]
+    return z3.And(*parts)
+
+
+def s_axis_lists(eng, marked, errs, k):
+    """invariant: after k contributions, list a holds the elements of the contributions with tag a among the first k, in order:
+    CNT0(k) of them in marked[0], k - CNT0(k) in marked[1]"""
+    m0, m1 = marked.items
+    l0 = to_z3(m0.length) if isinstance(m0, SList) else z3.IntVal(len(m0.items))
+    l1 = to_z3(m1.length) if isinstance(m1, SList) else z3.IntVal(len(m1.items))
+    kk = to_z3(k)
+    p = z3.Int("p!axl")
+    tag = lambda q: to_z3(errs.elem(q)[2])
+    el = lambda q: errs.elem(q)[1].term
+    it0 = (lambda q: s_item(eng, m0, q).term)
+    it1 = (lambda q: s_item(eng, m1, q).term)
+    return z3.And(l0 == CNT0(kk), l1 == kk - CNT0(kk), CNT0(0) == 0,
+                  z3.ForAll([p], z3.Implies(z3.And(0 <= p, p < kk, tag(p) == 0), it0(CNT0(p)) == el(p))),
+                  z3.ForAll([p], z3.Implies(z3.And(0 <= p, p < kk, tag(p) != 0), it1(p - CNT0(p)) == el(p))))
+
+
+CNT0 = z3.Function("CNT0", I, I)
+
+
+def s_cnt_axioms(eng, errs):
+    k = z3.Int("k!cnt")
+    n2 = to_z3(errs.length)
+    tag = lambda q: to_z3(errs.elem(q)[2])
+    q = z3.Int("q!cnt")
+    return z3.And(CNT0(0) == 0,
+                  z3.ForAll([k], z3.Implies(z3.And(0 <= k, k < n2), CNT0(k + 1) == CNT0(k) + z3.If(tag(k) == 0, 1, 0))),
+                  z3.ForAll([k], z3.Implies(z3.And(0 <= k, k <= n2), z3.And(CNT0(k) >= 0, CNT0(k) <= k))),
+                  # monotonicity lemmas (induction over the definition; assumed, listed in the evidence)
+                  z3.ForAll([k, q], z3.Implies(z3.And(0 <= k, k <= q, q <= n2), z3.And(CNT0(k) <= CNT0(q), k - CNT0(k) <= q - CNT0(q)))),
+                  z3.ForAll([k, q], z3.Implies(z3.And(0 <= k, k < q, q <= n2, tag(k) == 0), CNT0(k) < CNT0(q))),
+                  z3.ForAll([k, q], z3.Implies(z3.And(0 <= k, k < q, q <= n2, tag(k) != 0), k - CNT0(k) < q - CNT0(q))))
+
+
+def s_descending(eng, errs):
+    q = z3.Int("q!desc")
+    n2 = to_z3(errs.length)
+    return z3.ForAll([q], z3.Implies(z3.And(0 <= q, q + 1 < n2), to_real(errs.elem(q)[0]) >= to_real(errs.elem(q + 1)[0])))
+
+
+def s_tags_are_axes(eng, errs):
+    """the list construction pairs eta_sqr[i, a] with elems[i] and tag a, and sorting permutes it: every sorted entry is
+    (eta_sqr[i, a], elems[i], a) for some contribution index (checked through the permutation of the sort)"""
+    q = z3.Int("q!tag")
+    n2 = to_z3(errs.length)
+    N = to_z3(eng.ghost["N"])
+    v = eng.ghost["mesh"].fields["version"]
+    perm = errs.sort_perm
+    src = perm(q)
+    i_of = z3.If(src < N, src, src - N)
+    a_of = z3.If(src < N, 0, 1)
+    e = errs.elem(q)
+    return z3.And(n2 == 2 * N,
+                  z3.ForAll([q], z3.Implies(z3.And(0 <= q, q < n2),
+                                            z3.And(to_real(e[0]) == ETA2(i_of, a_of), e[1].term == LEAF(v, i_of), to_z3(e[2]) == a_of))))
+
+
+def install_aniso(eng):
+    cls = type(eng)
+    if _eta_slice_hook not in cls.slice_hooks:
+        cls.slice_hooks = list(cls.slice_hooks) + [_eta_slice_hook]
+        cls.getattr_hooks = list(cls.getattr_hooks) + [_eta_attr_hook]
+    cls.ref_rebuild_hooks = dict(cls.ref_rebuild_hooks, Elem=lambda e, t: elem_ref(e, t, e.ghost["mesh"]))
+    np = eng.externals["np"].fn
+    np["sum"] = Ext("np.sum", aniso_sum_ext)
+    eng.spec_funcs["descending"] = s_descending
+    eng.spec_funcs.update({"aniso_prefix": s_aniso_prefix, "axis_lists": s_axis_lists, "cnt_axioms": s_cnt_axioms,
+                           "aniso_axioms": s_aniso_axioms, "tags_are_axes": s_tags_are_axes, "PSUM2": lambda e, k: PSUM2(to_z3(k)),
+                           "item": s_item})
+
+
+def select_aniso_marking(stmts):
+    return select_marking_phase(stmts)
+
+
+ANISO_INV = [
+    ("cumsum-is-prefix-sum", "cumsum == PSUM2(ka)"),
+    ("each marked element sits in the list of its axis tag, in order", "axis_lists(marked, errs, ka)"),
+    ("no-shorter-non-empty-prefix-reaches-the-bulk", "forall1(lambda j: implies(And(0 < j, j <= ka), PSUM2(j) < eta_tot_sqr * theta**2))"),
+]
+
+aniso_contract = Contract(
+    MESH + ":Mesh.dorfler_refine_anisotropic", props=["C06"], setup=sc_dorfler_aniso, body_select=select_aniso_marking,
+    precondition_asserts=1,
+    ensures=[("the sorted list pairs eta_sqr[i, a] with elems[i] and axis tag a", "tags_are_axes(errs)"),
+             ("the contributions are processed in descending order of their values", "descending(errs)"),
+             ("marked contributions = shortest non-empty prefix of the descending ordering reaching theta^2 * total",
+              "aniso_prefix(marked, errs, cumsum, theta, eta_tot_sqr)")],
+    loops={0: LoopContract(index="ka", label="marking", invariant=ANISO_INV,
+                           assumes=[("definitions of the prefix sums / tag counts along the sorted list and their induction lemmas",
+                                     "And(aniso_axioms(errs), cnt_axioms(errs))")],
+                           modifies={"marked": lambda e, b: VList([slist_elems(e, "marked0"), slist_elems(e, "marked1")]),
+                                     "cumsum": "Real", "val": "Real", "refine_axis": "Int",
+                                     "elem": lambda e, b: elem_ref(e, e.fresh("el", "Int"), e.ghost["mesh"])})})
